@@ -36,6 +36,13 @@ impl Comment {
 
         buf.do_indent_no_nl();
         buf.add_str("/*");
+        if buf.format().is_compressed() {
+            // There is no indentation to adjust (and no line breaks) in
+            // compressed style; only `/*!` comments get here.
+            buf.add_str(&self.0.replace('\n', " "));
+            buf.add_str("*/");
+            return;
+        }
         match indent.cmp(&existing) {
             Ordering::Greater => {
                 let start = buf.format().get_indent(indent - existing);
